@@ -72,6 +72,8 @@ def mc_cfg(c, props, invs, known):
     s += "  NodeSeq <- %s\n  TmplSeq <- %s\n  InitFits <- %s\n  Strat <- %s\n" % (c["nodes"], c["tmpls"], c["fits"], c["strat"])
     s += "  EnvBudget = %d\n  EditBudget = %d\n  AnnBudget = %d\n  MaxPerNode = %d\n  AgeCap = %d\n" % (c["env"], c["edit"], c["ann"], c["per_node"], c["agecap"])
     s += "  EnvKinds = %s\n  FaultBudget = %d\n" % (c.get("kinds", plan.ALL_KINDS), c.get("fault", 0))
+    if c.get("oldds"):
+        s += "  OldDS <- MC_OldDS\n"
     s += "  KnownFindings = %s\n  Notes = FALSE\nVIEW view\n" % kf
     if invs:
         s += "INVARIANT " + " ".join(invs) + "\n"
